@@ -269,7 +269,9 @@ class Py:
 		if isinstance(n, ast.ClassDef):
 			if n.keywords:
 				raise Unmapped('class keywords')
-			return ('class', n.name, self.decorators(n.decorator_list), [self.type(b) for b in n.bases], self.body(n.body, 'class'))
+			# Class.inherits documents one exception: Generic[...] is a template marker, not a base of the inheritance chain
+			bases = [b for b in n.bases if not (isinstance(b, ast.Subscript) and isinstance(b.value, ast.Name) and b.value.id == 'Generic') and not (isinstance(b, ast.Name) and b.id == 'Generic')]
+			return ('class', n.name, self.decorators(n.decorator_list), [self.type(b) for b in bases], self.body(n.body, 'class'))
 		raise Unmapped('python stmt ' + type(n).__name__)
 
 
